@@ -598,7 +598,7 @@ def plan(ctx):
                         loops=True, defines=list(D), kind='bounded',
                         bound='every string of the %g output grammar (ISO C 7.21.6.1p8, precision 6, finite values): at most 13 characters; loops unwound 16 times',
                         cbmc_flags=['--unwind', '16', '--unwinding-assertions'], min_post=6, timeout=600, stage1=60, engines=['minisat', 'cadical'],
-                        checks=[c for c in DEFAULT_CHECKS if c != '--signed-overflow-check'],
+                        checks=[c for c in DEFAULT_CHECKS if c != '--signed-overflow-check'] + ['--no-signed-overflow-check'],
                         clause_note='the float arm of serialize applied to any %g text yields an RFC 8259 number that the number branch consumes entirely, without '
                                     'exception, as a value of the float kind',
                         replay=RP('float_roundtrip')))
@@ -637,8 +637,8 @@ def plan(ctx):
     for k, nm in ((0, 'list'), (1, 'dict')):
         groups.append(Group(name='JSON.%s.roundtrip[n<=2]' % nm, harness=HC, entry='h_container_bounded', function='JSON::serialize case %d -> JSON::parse %s branch' % (5 + k, nm),
                             defines=D + ['C04_DICT=%d' % k, 'C04_NMAX=2'], kind='bounded',
-                            bound='at most 2 elements, indent_level <= 1, keys of at most 1 byte, children abstracted to a one-byte value token; loops unwound 10 times',
-                            cbmc_flags=['--unwind', '10', '--unwinding-assertions'], min_post=6, timeout=900, stage1=60, replay=RP('%s_roundtrip' % nm)))
+                            bound='at most 2 elements, indent_level <= 1, keys of at most 1 plain letter, children abstracted to a one-byte value token; loops unwound 6 times',
+                            cbmc_flags=['--unwind', '6', '--unwinding-assertions'], min_post=6, timeout=900, stage1=60, replay=RP('%s_roundtrip' % nm)))
     return groups
 
 
